@@ -92,17 +92,19 @@ class PDFPage:
                 object_id = obj
                 object_properties = dict_value(document.getobj(object_id)).copy()
             else:
-                # This looks broken. obj.objid means obj could be either
-                # PDFObjRef or PDFStream, but neither is valid for dict_value.
-                object_id = obj.objid  # type: ignore[attr-defined]
+                # A reference to a node or, in broken files, a node (or a
+                # value of a wrong type) written directly; the latter has
+                # no object number.
+                object_id = getattr(obj, "objid", None)
                 object_properties = dict_value(obj).copy()
 
             # Avoid recursion errors by keeping track of visited nodes
             if visited is None:
                 visited = set()
-            if object_id in visited:
-                return
-            visited.add(object_id)
+            if object_id is not None:
+                if object_id in visited:
+                    return
+                visited.add(object_id)
 
             for k, v in parent.items():
                 if k in cls.INHERITABLE_ATTRS and k not in object_properties:
